@@ -539,6 +539,7 @@ func c16gRun(s *sim.Sim, p *sim.Params) {
 	if !s.WaitTimeout(5*time.Minute, hs...) {
 		s.Fail("deadlock", s.BlockedSitesOf(hs...), "client operations did not complete: "+s.BlockedSummary())
 	}
+	s.SetClockJumps(false) // faults stop here: the liveness bound below is in simulated seconds
 	s.Sleep(5 * time.Second)
 	s.Quiesce(0)
 	w.checkViews("after-workload")
